@@ -34,7 +34,8 @@ vars == <<ws, cache, dirobjs, pc, args, todoDel, todoNew, needRm, pend, failed, 
 FilesOf(w) == IF w.kind = "dir" THEN {k \in Keys : w.files[k] # NoFile} ELSE {}
 ListingOf(w) == [k \in FilesOf(w) |-> w.files[k].c]
 TargetKeys(t) == IF t.kind = "tree" THEN DOMAIN t.listing ELSE {}
-InCache(C, c) == C[c] = "ok"
+\* (a dangling link names no content: nothing in the cache stands for it)
+InCache(C, c) == c \in DOMAIN C /\ C[c] = "ok"
 \* oid at a key on the old side (what a dry-run staging of the path finds) / on the target side
 OldOid(w, k) == IF k = Root
                 THEN (IF w.kind = "file" THEN <<"f", w.files[Root].c>> ELSE IF w.kind = "dir" THEN <<"d", ListingOf(w)>> ELSE <<"none">>)
